@@ -6,7 +6,7 @@ Agreement of the regenerated model with the hand model, part 3: the loops of zob
 (`piece_board_value`, `Zobrist::from_piece_board`, `Zobrist::move_piece`).
 -/
 namespace Arimaa.RsAgree
-open Arimaa Arimaa.Gen Arimaa.Gen.Rs Arimaa.Rt
+open Arimaa Arimaa.Gen Arimaa.Gen.RsBase Arimaa.Rt
 
 /-- the innermost loop: XOR the table entries of the set bits of `x` into `v` -/
 theorem xor_loop (x : BB) (p : Piece) (o : Bool) (v : BB) :
